@@ -19,14 +19,16 @@ Fixpoint pad_dec (n : nat) (z : Z) (acc : string) : string :=
 Definition fmt_fixed (neg : bool) (q : Z) (dec : nat) : string :=
   (if neg then "-" else "") ++ fmt_uint (q / 10 ^ Z.of_nat dec) ++ "." ++ pad_dec dec (q mod 10 ^ Z.of_nat dec) "".
 
+Definition split_sign (s : string) : bool * string :=
+  match s with
+  | String "-" t => (true, t)
+  | String "+" t => (false, t)
+  | _ => (false, s)
+  end.
+
 (* (negative, mantissa, fractional digits) of  [+-]? digits [. digits] *)
 Definition parse_fixed (s : string) : option (bool * Z * nat) :=
-  let '(neg, body) :=
-    match s with
-    | String "-" t => (true, t)
-    | String "+" t => (false, t)
-    | _ => (false, s)
-    end in
+  let '(neg, body) := split_sign s in
   let '(ip, fp) :=
     match index_byte "." body with
     | Some i => (take i body, drop (S i) body)
